@@ -308,19 +308,24 @@ pub fn replay(v: &serde_json::Value) -> Vec<Violation> {
 
 /// complete walk (twice) around the 16-bit TOI space with the given values held the whole time.
 /// `holder`: 0 = by a TOI handle, 1 = by a live object the handle was attached to (set_toi + add_object),
-/// 2 = by a live object that got the value implicitly (add_object right after the preceding value)
+/// 2 = by a live object that got the value implicitly (add_object right after the preceding value),
+/// 3 = by an object (explicit TOI) that was removed with remove_object while its first transfer is running: the
+/// transfer goes on (no immediate stop), so packets with that TOI are still to come and the value stays taken
+/// until the transfer ends
 pub fn cycle16(held: &[u128], holder: u8) -> Option<(String, String)> {
     let r = catch(|| -> Option<(String, String)> {
         let mut s = SessSpec::basic(OtiSpec::new(Scheme::NoCode, 1424, 64, 0, true));
         s.toi_bits = 16;
         s.toi_init = Some("1".into());
+        s.queues = vec![(0, 8)]; // holder 3 keeps up to four objects in transmission at once
         let mut snd = s.sender().unwrap();
         let mut keep: Vec<Box<Toi>> = Vec::new();
         let mut live: BTreeSet<u128> = BTreeSet::new();
         let want: BTreeSet<u128> = held.iter().cloned().collect();
-        let how = ["a handle", "a live object (explicit TOI)", "a live object (implicit TOI)"][holder as usize % 3];
+        let how = ["a handle", "a live object (explicit TOI)", "a live object (implicit TOI)", "an object removed during its first transfer, still in transmission"][holder as usize % 4];
         let mut n = 0u64;
         let mut salt = 0u8;
+        let mut removed_running: Vec<u128> = Vec::new();
         for _ in 0..(2 * 65536 + 10) {
             let h = snd.allocate_toi();
             n += 1;
@@ -359,12 +364,42 @@ pub fn cycle16(held: &[u128], holder: u8) -> Option<(String, String)> {
                     keep.push(h);
                 } else {
                     salt = salt.wrapping_add(1);
-                    let mut d = ObjSpec::simple(3, salt).desc(None).unwrap();
+                    let mut spec = ObjSpec::simple(if holder == 3 { 4000 } else { 3 }, salt);
+                    if holder == 3 {
+                        // 1000 packets: the transfer outlasts the reads below by far
+                        spec.oti = Some(OtiSpec::new(Scheme::NoCode, 4, 64, 0, true));
+                    }
+                    let mut d = spec.desc(None).unwrap();
                     d.set_toi(h);
                     match snd.add_object(0, d) {
                         Ok(t) if t == v => {}
                         Ok(t) => return Some(("C15/add-object-ignores-handle".into(), format!("object added with handle {} got TOI {}", v, t))),
                         Err(e) => return Some(("C15/add-refused".into(), e.0.to_string())),
+                    }
+                    if holder == 3 {
+                        // start the transfer, then remove the object from the FDT
+                        if let Err(e) = snd.publish(at_ms(0)) {
+                            return Some(("C15/harness-publish".into(), e.0.to_string()));
+                        }
+                        let mut started = false;
+                        for _ in 0..64 {
+                            match snd.read(at_ms(0)) {
+                                Some(p) => {
+                                    if crate::rfc::decode(&p).map(|r| r.toi == v).unwrap_or(false) {
+                                        started = true;
+                                        break;
+                                    }
+                                }
+                                None => break,
+                            }
+                        }
+                        if !started {
+                            return Some(("C15/harness-transfer-not-started".into(), format!("no packet of TOI {} within 64 reads", v)));
+                        }
+                        if !snd.remove_object(v) {
+                            return Some(("C15/harness-remove".into(), format!("remove_object({}) returned false", v)));
+                        }
+                        removed_running.push(v);
                     }
                 }
             } else {
@@ -373,6 +408,23 @@ pub fn cycle16(held: &[u128], holder: u8) -> Option<(String, String)> {
         }
         if live.len() != want.len() {
             return Some(("C15/cycle/held-values-not-reached".into(), format!("held {:?}, reached {:?}", held, live)));
+        }
+        // the removed objects were really in transmission the whole time: their packets are still coming
+        if !removed_running.is_empty() {
+            let mut seen: BTreeSet<u128> = BTreeSet::new();
+            for _ in 0..20 {
+                match snd.read(at_ms(0)) {
+                    Some(p) => {
+                        if let Ok(r) = crate::rfc::decode(&p) {
+                            seen.insert(r.toi);
+                        }
+                    }
+                    None => break,
+                }
+            }
+            if !removed_running.iter().any(|v| seen.contains(v)) {
+                return Some(("C15/harness-removed-object-not-in-transmission".into(), format!("no packet of the removed objects {:?} after the walk (saw TOIs {:?})", removed_running, seen)));
+            }
         }
         None
     });
@@ -421,7 +473,7 @@ pub fn run(thorough: bool) -> i32 {
     }
     // complete cycles of the 16-bit space
     let mut helds: Vec<(Vec<u128>, u8)> = Vec::new();
-    for holder in 0..3u8 {
+    for holder in 0..4u8 {
         for h in [vec![], vec![0xFFFFu128], vec![1], vec![0x8000], vec![0xFFFF, 1], vec![0xFFFE, 0xFFFF, 1, 2], vec![0xFFFF, 0x8000, 1]] {
             if holder > 0 && h.is_empty() {
                 continue;
